@@ -126,12 +126,12 @@ def make_params(cfg):
         extra["excited_states"] = {"n_states": 3, "method": cfg["ex"], "tolerance": CIS_TOL}
     return sp.make_params(
         method, "adaptive" if solver == "sp2" else solver, eps=SCF_EPS, sp2=(SP2_EPS if solver == "sp2" else None),
-        force_mode=fmode, **extra,
+        force_mode=fmode, uhf=bool(cfg.get("uhf")), **extra,
     )  # fmt: skip
 
 
 def cfg_key(cfg):
-    return "|".join(str(cfg.get(k)) for k in ("method", "solver", "fmode", "ex", "act", "engine")) + (f"|acts={cfg['acts']}" if cfg.get("acts") else "")
+    return "|".join(str(cfg.get(k)) for k in ("method", "solver", "fmode", "ex", "act", "engine")) + (f"|acts={cfg['acts']}" if cfg.get("acts") else "") + ("|uhf" if cfg.get("uhf") else "")
 
 
 def tolerance(cfg):
@@ -471,6 +471,19 @@ def lattice(tier, seed):
                         c = _case("cfg", [_spec(a), _spec(b)], 1, "mixed", _cfg(method, solver, fmode), seed)
                         c["uninit"] = uninit
                         cases.append(c)
+    # uhf: the unrestricted code path (two spin blocks per molecule) on every ordered batch, closed-shell molecules as
+    #      UHF singlets and with a doublet (CH3) / triplet (O2) member in every position
+    ualpha = ALPHABET + ["CH3", "O2"]
+    ub = [list(t) for t in itertools.product(ualpha, repeat=2)]
+    if quick:
+        ub += [["H2CO", "CH3", "H2O"], ["CH3", "C2H2", "HF"], ["HF", "H2CO", "O2"]]
+    else:
+        ub += [list(t) for t in itertools.permutations(ualpha, 3) if ualpha.index(t[0]) < ualpha.index(t[2])]
+    for bt in ub:
+        specs = [_spec(n) for n in bt]
+        for w, pat in ((0, "zero"), (1, "mixed")):
+            for method in ["AM1"] if quick else METHODS:
+                cases.append(_case("uhf", specs, w, pat, _cfg(method, "adaptive", uhf=True), seed))
     # tr: transpositions
     for i, name in enumerate(ALPHABET):
         mate = ALPHABET[(i + 3) % len(ALPHABET)]
@@ -663,7 +676,7 @@ def run(chk, tier, seed):
         chk.violation(describe(c, r2), f"{k}: {r2['problems'][0]} (+{len(r2['problems']) - 1} more)", replay=c)
     chk.extra["sp2_padded_anion_horizon_excluded"] = n_sp2_excl
     chk.extra["max_loop_header_count_seen"] = int(hz_max)
-    chk.extra["sections"] = {s: sum(1 for c in cases if c["sec"] == s) for s in ("gs", "fm", "cfg", "tr", "cis", "md")}
+    chk.extra["sections"] = {s: sum(1 for c in cases if c["sec"] == s) for s in ("gs", "fm", "cfg", "uhf", "tr", "cis", "md")}
 
 
 def replay(payload):
